@@ -187,6 +187,12 @@ ReplaceSameMtime(p, c) ==
   /\ CanOp /\ Kind(tree[p]) = "file" /\ c # tree[p][2] /\ SizeOf(c) = SizeOf(tree[p][2])
   /\ Op([tree EXCEPT ![p] = F(c, tree[p][3], Fresh)], [a |-> "ReplaceSameMtime", p |-> p])
 
+\* same size, same inode, same mtime: rewritten in place and the old mtime restored (cp -p onto an existing file,
+\* rsync --inplace -t, touch -r): only the ctime tells -- it is part of the stat tuple all the same
+RewriteSameMtime(p, c) ==
+  /\ CanOp /\ Kind(tree[p]) = "file" /\ c # tree[p][2] /\ SizeOf(c) = SizeOf(tree[p][2])
+  /\ Op([tree EXCEPT ![p] = F(c, tree[p][3], Fresh)], [a |-> "RewriteSameMtime", p |-> p])
+
 Chmod(p, m) ==
   /\ CanOp
   /\ \/ /\ Kind(tree[p]) = "file" /\ m \in Modes /\ m # tree[p][3]
@@ -309,7 +315,7 @@ Next ==
        \/ \E c \in NewContents, m \in NewModes : CreateFile(p, c, m) \/ ReplaceByFile(p, c, m)
        \/ \E x \in Targets : CreateLink(p, x) \/ ReplaceByLink(p, x)
        \/ \E m \in DirModes : MkDir(p, m) \/ ReplaceByDir(p, m)
-       \/ \E c \in Contents : Modify(p, c) \/ Rewrite(p, c) \/ ReplaceSameMtime(p, c)
+       \/ \E c \in Contents : Modify(p, c) \/ Rewrite(p, c) \/ ReplaceSameMtime(p, c) \/ RewriteSameMtime(p, c)
        \/ \E m \in Modes \cup DirModes : Chmod(p, m)
        \/ Delete(p)
        \/ \E q \in Paths : Rename(p, q)
